@@ -96,7 +96,8 @@ directive @tag(name: String!, w: Float) on FIELD | QUERY
 // interfaces with (Walker / Swimmer: Dog) and without (Walker / Flyer, Swimmer /
 // Flyer) a common implementer. Walker also serves the three-way response name
 // conflicts (a field with an argument on the interface, a second Int field on one
-// implementer). Kept tiny: it is explored with smaller bounds.
+// implementer), and four argument-less directives, one per location class. Kept
+// tiny: it is explored with smaller bounds.
 const sdl3 = `
 schema { query: Q }
 type Q { dh: DogOrHuman ca: CatOrAlien dc: DogOrCat w: Walker sw: Swimmer fl: Flyer }
@@ -111,6 +112,10 @@ type Fish implements Swimmer { fins: Int }
 union DogOrHuman = Dog | Human
 union CatOrAlien = Cat | Alien
 union DogOrCat = Dog | Cat
+directive @cached on FIELD
+directive @op on QUERY | MUTATION | SUBSCRIPTION
+directive @frag on FRAGMENT_SPREAD | INLINE_FRAGMENT | FRAGMENT_DEFINITION
+directive @vd on VARIABLE_DEFINITION
 `
 
 var schemaNames = []string{"S1", "S2", "S3"}
@@ -288,6 +293,9 @@ type caseInput struct {
 	Op         string `json:"operator"`
 	Site       string `json:"site"`
 	Class      string `json:"class"`
+
+	History      []string `json:"history,omitempty"` // history family: operations handled before (and including) Query on one pipeline
+	HistoryKinds []string `json:"history_kinds,omitempty"`
 }
 
 // first frame inside the repository below the panic (the runtime frames come first in debug.Stack)
@@ -599,6 +607,10 @@ func TestCheck(t *testing.T) {
 			t.Fatalf("replay input: %v", err)
 		}
 		l := labs[in.Schema]
+		if len(in.History) > 0 {
+			c.historyCase(l, in.HistoryKinds, in.History)
+			return
+		}
 		// (a process crash was observed to be non-deterministic: about one evaluation in eight crashes; give it 100 attempts)
 		for attempt := 1; attempt <= 100; attempt++ {
 			clause, eng, ref := c.judge(l, in.Query, in.OpName, in.LabelValid, in.Rule)
@@ -624,7 +636,8 @@ func TestCheck(t *testing.T) {
 		"for each such valid document: the document itself and EVERY applicable instance of every mutation operator of DESIGN appendix A.5 (invalid-by-rule-R), applied only in the executed operation and the fragments it reaches, " +
 		"and of the negative controls (still valid). A distinct outcome is (rule family, operator, engine verdict, engine stage). Failing cases are shrunk (structured, validity-preserving simplification of the base document with the mutation kept) " +
 		"and fingerprinted per (direction, rule family or cross-cutting mechanism, structural class of the mutation site + constructs whose removal makes the failure vanish).")
-	run.Assume("label by construction of the generator / mutation operator; judged only where gqlparser v2.5.30 validator.Validate agrees with the label (valid/invalid and, for invalid, reports the rule that corresponds to the targeted family); disagreements are counted as oracle_split and never judged",
+	run.Assume("history family: every ordered history of history_max_length (and shorter, >= 2) operations from a pool of history_pool operations over S1 (normalization aborted early / rejected by validation only / valid / invalid by variables, all on the variable name $v) is run on ONE re-used astnormalization.OperationNormalizer (engine option set) + astvalidation.DefaultOperationValidator; differential oracle: the verdict on the last operation equals its verdict on a fresh pipeline",
+		"label by construction of the generator / mutation operator; judged only where gqlparser v2.5.30 validator.Validate agrees with the label (valid/invalid and, for invalid, reports the rule that corresponds to the targeted family); disagreements are counted as oracle_split and never judged",
 		"gqlparser errors of UniqueDirectivesPerLocation about a directive that the schema declares repeatable are discarded (known gqlparser defect: it tests the directive name, not the definition)",
 		"engine verdict = graphql.Request.Normalize with the option set of ExecutionEngine.Execute succeeded AND ValidateForSchema(default options).Valid, evaluated in a helper process (a fatal error of the code under test must not take the shard down); no variables JSON is supplied",
 		"generated and observed but not judged: lone-anonymous-operation and operation-name-uniqueness mutants (they concern other operations of the document, which the property statement excludes) and fragment-name-uniqueness mutants (which of two equally named definitions a spread reaches is not settled by the statement); a crash on them is still reported",
@@ -652,6 +665,11 @@ func TestCheck(t *testing.T) {
 	run.Bound("shrink_budget_steps", shrinkBudget)
 
 	var unit int64
+	// history family (tiny): one re-used normalizer + validator, every ordered history over a pool
+	histLen := vk.Pick(run, 2, 3)
+	run.Bound("history_pool", len(histPool))
+	run.Bound("history_max_length", histLen)
+	c.histories(labs["S1"], histLen, &unit)
 	for _, sn := range schemaNames {
 		l := labs[sn]
 		g := opgen.NewGen(l.gen)
